@@ -151,6 +151,7 @@ def replay(verdict, exe, res, aspects, seed=0, tag="api", pol=None, sigprefix="a
         scripts.append((bid, "\n".join(lines)))
         meta[bid] = b
     results = run_behaviours(exe, scripts, tag)
+    script_of = dict(scripts)
     distinct = set()
     for bid, b in meta.items():
         g = results.get(bid)
@@ -161,7 +162,7 @@ def replay(verdict, exe, res, aspects, seed=0, tag="api", pol=None, sigprefix="a
             desc = "rewrite#%d; %s" % (b["rw2"], desc)
         distinct.add(desc)
         verdict.cov["traces_validated_against_impl"] += 1
-        rep = {"behaviour": b, "pretext": pretext}
+        rep = {"behaviour": b, "pretext": pretext, "script": script_of.get(bid)}
         if g is None:
             raise ModelError("behaviour %s produced no output" % bid)
         if g["crash"]:
